@@ -8,11 +8,12 @@ EXTENDS Backoff, TLC, Json
 T == ndJsonDeserialize("c17_trace.ndjson")
 VARIABLES i, sc, times
 tvars == <<i, sc, times>>
-TInit == i = 1 /\ sc = [name |-> "none", imm |-> 0, cost |-> 0, tol |-> 0, zero |-> FALSE] /\ times = <<>>
+TInit == i = 1 /\ sc = [name |-> "none", imm |-> 0, cost |-> 0, tol |-> 0, zero |-> FALSE, loops |-> 1] /\ times = <<>>
 TNext ==
   /\ i <= Len(T) /\ i' = i + 1
   /\ LET e == T[i] IN
-     CASE e.ev = "scenario" -> sc' = [name |-> e.name, imm |-> e.imm, cost |-> e.cost, tol |-> e.tol, zero |-> e.zero] /\ times' = <<>>
+     CASE e.ev = "scenario" -> sc' = [name |-> e.name, imm |-> e.imm, cost |-> e.cost, tol |-> e.tol, zero |-> e.zero,
+                                      loops |-> IF "loops" \in DOMAIN e THEN e.loops ELSE 1] /\ times' = <<>>
        [] e.ev = "attempt" -> times' = Append(times, e.t) /\ UNCHANGED sc
        [] OTHER -> UNCHANGED <<sc, times>>
 TSpec == /\ TInit /\ kind = "later" /\ b = Start /\ errs = 0 /\ attempts = 1 /\ waits = <<>>
@@ -20,9 +21,20 @@ TSpec == /\ TInit /\ kind = "later" /\ b = Start /\ errs = 0 /\ attempts = 1 /\ 
 (* gaps in microseconds against the schedule in milliseconds *)
 Expect(k) == IF k <= sc.imm THEN 0 ELSE (IF sc.zero THEN SchedFromZero(k - sc.imm) ELSE Sched(k - sc.imm))
 GapsFollowSchedule ==
+  sc.loops = 1 =>
   \A k \in 1..(Len(times) - 1) :
      LET gap == times[k + 1] - times[k]
          want == 1000 * (sc.cost + Expect(k))
      IN  gap >= want /\ gap <= want + 1000 * sc.tol
+(* several retry loops at once (one per region of the failing server): attempts of different loops interleave, so the    *)
+(* gaps say nothing - but `loops' loops cannot have made their k-th attempt overall before one loop alone would have     *)
+(* made its ceil(k / loops)-th (each loop starts no earlier than the first attempt and waits at least its schedule)      *)
+RECURSIVE Cum(_)
+Cum(j) == IF j <= 0 THEN 0 ELSE Cum(j - 1) + sc.cost + Expect(j)     \* ms from a loop's first attempt to its (j+1)-th
+BudgetOK ==
+  sc.loops > 1 =>
+  \A k \in 1..Len(times) :
+     LET j == (k + sc.loops - 1) \div sc.loops IN   \* this is at least some loop's j-th attempt
+     times[k] - times[1] + 1000 * sc.tol >= 1000 * Cum(j - 1)
 Accepted == TLCGet("stats").diameter = Len(T) + 1
 =============================================================================
